@@ -280,7 +280,7 @@ def generator_call(draw, lo=1, hi=12, square=False, names=None, defaults_only=Fa
     name = draw(st.sampled_from(names or GENERATORS))
     r, c = draw(shapes(lo, hi, square))
     kw = draw(gen_kwargs(name, r, c, defaults_only))
-    return {
+    out = {
         "gen": name,
         "r": r,
         "c": c,
@@ -288,6 +288,13 @@ def generator_call(draw, lo=1, hi=12, square=False, names=None, defaults_only=Fa
         "np_seed": draw(st.integers(0, 2**32 - 1)),
         "py_seed": draw(st.integers(0, 2**32 - 1)),
     }
+    # the container the grid shape arrives in: MazeDataset.generate passes an int64 array; the Coord annotation is int8; direct callers
+    # also pass int16/int32 arrays and (for every generator but Wilson, which does array arithmetic on it) tuples or lists
+    forms = ["int64", "int64", "int8", "int8", "int16", "int32"] + ([] if name == "gen_wilson" else ["tuple", "list"])
+    form = draw(st.sampled_from(forms))
+    if form != "int64":
+        out["shape_form"] = form
+    return out
 
 
 def product_cases(*iterables):
